@@ -424,6 +424,10 @@ func (b *rb) collect(v Val, t types.Type, depth int) {
 	case kPtr:
 		b.want(v.Ref)
 		b.want(v.Idx)
+		if bg := b.bigvalTerm(v); bg != "" {
+			b.want(bg) // *big.Int: rebuilt from its ghost value
+			return
+		}
 		b.collectPointee(v, pointeeOfVal(v), depth)
 	case kStruct:
 		st := mustStruct(t)
@@ -435,6 +439,19 @@ func (b *rb) collect(v Val, t types.Type, depth int) {
 			b.collect(f, st.Field(i).Type(), depth+1)
 		}
 	}
+}
+
+// bigvalTerm: for a *math/big.Int, the term of its ghost value in the entry
+// state ("" for any other pointer, or when the query never mentions it).
+func (b *rb) bigvalTerm(v Val) string {
+	if v.K != kPtr || types.TypeString(pointeeOfVal(v), nil) != "math/big.Int" {
+		return ""
+	}
+	h := b.c.entryHeap("G_bigval")
+	if h == "" {
+		return ""
+	}
+	return sx("select", sx("select", h, v.Ref), "0")
 }
 
 // foreignField: a field the in-package test cannot set (unexported field of
@@ -742,6 +759,21 @@ func (b *rb) expr(v Val, t types.Type, depth int) string {
 		}
 		idx, _ := b.intv(v.Idx)
 		pt := pointeeOfVal(v)
+		if bg := b.bigvalTerm(v); bg != "" {
+			n, ok := sexpInt(b.vals[bg])
+			if !ok {
+				n = big.NewInt(0)
+			}
+			k := fmt.Sprintf("%d/big", ref)
+			cv, seen := b.cells[k]
+			if !seen {
+				cv = b.newVar("big")
+				b.cells[k] = cv
+				b.qual(pt) // records the math/big import
+				b.stmt("%s, _ := new(big.Int).SetString(%q, 10)", cv, n.String())
+			}
+			return cv
+		}
 		k := fmt.Sprintf("%d/%d/%s", ref, idx, typeName(pt))
 		cv, ok := b.cells[k]
 		if !ok {
